@@ -120,6 +120,106 @@ def lean(e):
     if k == "rIte": return f"(rIte {lean(e[1])} {lean(e[2])} {lean(e[3])})"
     return f"({k} {lean(e[1])} {lean(e[2])})"
 
+# ------------------------------------------------------------------------------------------------
+# second shape: a straight-line function over signed integers with early returns and Option results
+# (helper/formula.rs `translate_part`), plus `const NAME: u32 = <literal>;`
+#   let (a, b) = <tuple parameter>;   if C { return E; }   let x = E;   if C { E } else { E }
+#   E ::= literals, identifiers, + - < > <= >= == != || && !, `as <type>` (dropped: i64 arithmetic on a
+#   u32 and an i32 cannot overflow, the final `as u32` is applied to a value already checked to be in
+#   1..=max), `Some(E)`, `None`, tuples `(E, E)`, `*x` / `&x` (dropped)
+
+def tokenize2(s):
+    s = re.sub(r"//[^\n]*", "", s)
+    toks = re.findall(r"\|\||&&|==|!=|>=|<=|[A-Za-z_][A-Za-z_0-9]*|\d+|[{}();<>+\-!&*,=]", s)
+    return [t for t in toks if t not in ("&", "*")]
+
+class P2(P):
+    def atom(self):
+        t = self.peek()
+        if t == "Some":
+            self.eat(); self.eat("("); e = self.expr(); self.eat(")"); return self.cast(("some", e))
+        if t == "None":
+            self.eat(); return ("none",)
+        if t == "(":
+            self.eat("("); e = self.expr()
+            if self.peek() == ",":
+                self.eat(","); f = self.expr(); self.eat(")"); return ("pair", e, f)
+            self.eat(")"); return self.cast(e)
+        if t == "!":
+            self.eat(); return ("not", self.atom())
+        self.eat()
+        if re.fullmatch(r"\d+", t): return self.cast(("lit", t))
+        if t in ("true", "false"): return ("bool", t)
+        if re.fullmatch(r"[A-Za-z_][A-Za-z_0-9]*", t): return self.cast(("var", t))
+        raise ValueError(f"unexpected token {t}")
+    def cast(self, e):
+        while self.peek() == "as":
+            self.eat("as"); ty = self.eat()
+            if ty not in ("i64", "u32", "i32", "u64", "usize"): raise ValueError(f"cast to {ty}")
+        return e
+    def stmts(self):
+        out = []
+        while True:
+            t = self.peek()
+            if t == "let":
+                self.eat("let")
+                if self.peek() == "(":
+                    self.eat("("); a = self.eat(); self.eat(","); b = self.eat(); self.eat(")"); self.eat("="); src = self.eat(); self.eat(";")
+                    out.append(("unpack", a, b, src))
+                else:
+                    x = self.eat(); self.eat("="); e = self.expr(); self.eat(";"); out.append(("let", x, e))
+            elif t == "if":
+                save = self.i
+                self.eat("if"); c = self.expr(); self.eat("{")
+                if self.peek() == "return":
+                    self.eat("return"); e = self.expr(); self.eat(";"); self.eat("}"); out.append(("ret_if", c, e))
+                else:
+                    a = self.expr(); self.eat("}"); self.eat("else"); self.eat("{"); b = self.expr(); self.eat("}")
+                    out.append(("tail", ("ite", c, a, b))); return out
+            else:
+                out.append(("tail", self.expr())); return out
+
+def lean2(e, env):
+    k = e[0]
+    if k == "lit": return e[1]
+    if k == "bool": return e[1]
+    if k == "none": return "none"
+    if k == "some": return f"(some {lean2(e[1], env)})"
+    if k == "pair": return f"({lean2(e[1], env)}, {lean2(e[2], env)})"
+    if k == "not": return f"(!{lean2(e[1], env)})"
+    if k == "var":
+        if e[1] not in env: raise ValueError(f"unknown identifier {e[1]}")
+        return env[e[1]]
+    if k == "ite": return f"(if {lean2(e[1], env)} then {lean2(e[2], env)} else {lean2(e[3], env)})"
+    ops = {"rOr": "||", "rAnd": "&&", "rLt": "<", "rGt": ">", "rLe": "≤", "rGe": "≥", "rEq": "==", "rNe": "!=", "rAdd": "+", "rSub": "-"}
+    if k in ("rLt", "rGt", "rLe", "rGe"):
+        return f"(decide ({lean2(e[1], env)} {ops[k]} {lean2(e[2], env)}))"
+    if k in ops: return f"({lean2(e[1], env)} {ops[k]} {lean2(e[2], env)})"
+    raise ValueError(f"unknown node {k}")
+
+def translate_part_def(src):
+    body = body_of(src, "translate_part")
+    st = P2(tokenize2(body)).stmts()
+    env = {"offset_num": "offset_num", "max_num": "max_num"}
+    lines = []
+    for s in st:
+        if s[0] == "unpack":
+            if s[3] != "part": raise ValueError("unpack of " + s[3])
+            env[s[1]] = "part.1"; env[s[2]] = "part.2"; env["part"] = "part"
+        elif s[0] == "ret_if":
+            lines.append(f"if {lean2(s[1], env)} then {lean2(s[2], env)} else")
+        elif s[0] == "let":
+            lines.append(f"let {s[1]} : Int := {lean2(s[2], env)}"); env[s[1]] = s[1]
+        elif s[0] == "tail":
+            lines.append(lean2(s[1], env))
+    return ("/-- translated from `src/helper/formula.rs` fn `translate_part` (integers unbounded: the Rust computes in i64) -/\n"
+            "def translate_part (part : Int × Bool) (offset_num : Int) (max_num : Int) : Option (Int × Bool) :=\n  " + "\n  ".join(lines) + "\n")
+
+def const_def(src, name, lean_name, path):
+    m = re.search(r"const\s+" + name + r"\s*:\s*u32\s*=\s*(\d+)\s*;", src)
+    if not m: raise ValueError("const not found")
+    return f"/-- translated from `{path}` const `{name}` -/\ndef {lean_name} : Nat := {m.group(1)}\n"
+
 def main():
     defs, extracted, fallbacks = [], [], []
     old = open(OUT).read() if os.path.exists(OUT) else ""
@@ -136,6 +236,17 @@ def main():
             if m:
                 defs.append((name, m.group(0).rstrip("\n") + "\n"))
             fallbacks.append({"function": name, "reason": str(ex)[:120]})
+    fsrc_path = "src/helper/formula.rs"
+    for name, f in (("translate_part", lambda src: translate_part_def(src)),
+                    ("max_column_num", lambda src: const_def(src, "MAX_COLUMN_NUM", "max_column_num", fsrc_path)),
+                    ("max_row_num", lambda src: const_def(src, "MAX_ROW_NUM", "max_row_num", fsrc_path))):
+        try:
+            defs.append((name, f(open(os.path.join(REPO, fsrc_path)).read()))); extracted.append(name)
+        except Exception as ex:
+            m = re.search(r"/-- translated from[^\n]*\n(?:[^\n]*\n)*?def " + re.escape(name) + r"\b.*?\n\n", old, re.S)
+            if m:
+                defs.append((name, m.group(0).rstrip("\n") + "\n"))
+            fallbacks.append({"function": name, "reason": (type(ex).__name__ + ": " + str(ex))[:120]})
     text = ("/-\n  GENERATED by tools/extract.py from the current source of /repo — do not edit.\n  The scalar shift kernels of helper/coordinate.rs, structs/row.rs, structs/column.rs.\n-/\n"
             "import Umya.Model.GenPrelude\nnamespace Umya.Gen\nopen Umya.Coord (Res)\n\n" + "\n".join(d for _, d in defs) + "\nend Umya.Gen\n")
     if text != old:
